@@ -29,6 +29,13 @@ def run(m):
     try:
         dst = os.path.join(tmp, "repo")
         subprocess.run(["rsync", "-a", "--exclude", ".git", REPO + "/", dst + "/"], check=True)
+        if m.get("patch"):
+            pf = os.path.join(ROOT, m["patch"])
+            if not os.path.exists(pf):
+                return m, "STALE", "patch file missing: " + m["patch"]
+            pr = subprocess.run(["patch", "-p1", "-s", "--no-backup-if-mismatch", "-i", pf], cwd=dst, capture_output=True, text=True)
+            if pr.returncode != 0:
+                return m, "STALE", "patch does not apply: " + (pr.stdout + pr.stderr)[-300:]
         for ed in m.get("edits", []):
             path = os.path.join(dst, ed["file"])
             s = open(path).read()
